@@ -86,3 +86,9 @@ Example C10_resplit_nonvacuous :
   Forall (fun c => slen c <= 20 - 5) (split_ws "1 0 -1 2 -3 4 -5 6 imp:n=1 vol=12345").
 Proof. exact wrap_resplit_example_premises. Qed.
 Print Assumptions C10_resplit_nonvacuous.
+
+(* a written line never consists of blanks only: MCNP would read it as the end of the block *)
+Theorem C10_no_blank_line : forall W cont first lines out,
+  wrap_lines W cont first lines = Some out -> Forall (fun l => all_blank l = false) out.
+Proof. exact wrap_lines_no_blank_line. Qed.
+Print Assumptions C10_no_blank_line.
